@@ -28,7 +28,7 @@ func e2eTrack(c *e2eCtx, decoys bool) error {
 	c.res.Rule = fmt.Sprintf("%d generated in-scope multi-package projects (1-4 mains incl. root main, 2-5 libraries, one imported by no main, "+
 		"assembly-backed body-less declarations, decoys=%v) × old/new revision (units added/modified with p=0.25, new files) × configuration drawn from "+
 		"granularity{4} × precision{1,2,3,INIT} × threads{1,4} × race × dataType × printer{5} × package alias/name/path{3}; oracles: exit status, panic, go build, "+
-		"syntax tree+comments modulo artefacts, marker block shape, id numbering, component closure, service start, differing paths, then goat clean and its oracles; "+
+		"syntax tree+comments modulo artefacts, marker block shape, id numbering, component closure, service start, differing paths, then one of seven histories (nothing, delete markers, patch to N=0, git checkout, insert markers, a patch round, inserts into fresh files + patch), goat clean and its oracles; "+
 		"non-trivial = at least one tracking call was inserted", n, decoys)
 	c.parallel(n, func(i int, r *rand.Rand) {
 		o := proj.Opts{InScope: true, RootMain: r.Intn(3) == 0, Asm: true, Decoys: decoys}
@@ -206,21 +206,28 @@ func (c *e2eCtx) trackAndJudge(s *scenario, decoys bool, r *rand.Rand) {
 			c.violate("C13", "unexpected file in the tracking package directory: "+p, rp(nil))
 			continue
 		}
-		ok := (eligible(p, s.cfg) && changedNew[p]) || (mainFiles[p] && eligible(p, s.cfg))
+		// a main-entry file may be written only when its package is selected (exact directory or *)
+		selMain := false
+		for _, e := range s.cfg.MainEntries {
+			if e == "*" || e == filepath.Dir(p) {
+				selMain = true
+			}
+		}
+		ok := (eligible(p, s.cfg) && changedNew[p]) || (mainFiles[p] && selMain && eligible(p, s.cfg))
 		if !ok {
 			c.violate("C13", fmt.Sprintf("%s was modified although it is not an eligible changed Go file nor a main entry", p), rp(map[string]any{"file": p}))
 		}
 	}
 	if decoys {
 		// conversely: changed Go files not excluded by the rules must be considered
-		for _, p := range []string{"vendorx/v.go", "ignoredirx/i.go"} {
+		for _, p := range []string{"vendorx/v.go", "ignoredirx/i.go", "pkg/l0/mv_in.go"} {
 			if _, ok := s.newTree[p]; ok && eligible(p, s.cfg) && in.Markers[p] == 0 {
-				c.violate("C13", fmt.Sprintf("%s is a changed eligible Go file (its directory name merely starts with an ignored name) but was not instrumented", p), rp(map[string]any{"file": p}))
+				c.violate("C13", fmt.Sprintf("%s is a changed eligible Go file (its directory name merely starts with an ignored name, or it was moved here from an excluded directory) but was not instrumented", p), rp(map[string]any{"file": p}))
 			}
 		}
 	}
 	// ---- what happens between track and clean (C06 quantifies over these histories)
-	variant := r.Intn(6)
+	variant := r.Intn(7)
 	c.count(fmt.Sprintf("before-clean:%d", variant))
 	{
 		files := goFilesOf(after, s.cfg)
@@ -243,6 +250,20 @@ func (c *e2eCtx) trackAndJudge(s *scenario, decoys bool, r *rand.Rand) {
 		case 4: // insert markers added, clean without patch
 			addInserts(edited, files, r, 1+r.Intn(3))
 			writeFiles(s.dir, edited, files)
+		case 6: // insert markers only in files track did not instrument, patch, then clean
+			var fresh []string
+			for _, p := range files {
+				if in.Markers[p] == 0 && !mainFiles[p] {
+					fresh = append(fresh, p)
+				}
+			}
+			if len(fresh) > 0 {
+				addInserts(edited, fresh, r, 1+r.Intn(3))
+				writeFiles(s.dir, edited, files)
+				if pr := proj.RunGoat(c.goat, s.dir, nil, "patch"); pr.Exit != 0 {
+					c.violate("C10", "goat patch failed on insert markers in not yet instrumented files: "+lastLine(pr.Stderr), rp(nil))
+				}
+			}
 		case 5: // a patch round with deletes and inserts, then clean
 			flipDeletes(edited, files, r, r.Intn(4), false)
 			addInserts(edited, files, r, r.Intn(3))
@@ -274,7 +295,15 @@ func (c *e2eCtx) trackAndJudge(s *scenario, decoys bool, r *rand.Rand) {
 			len(in2.Calls), len(in2.Serve), keysOf(in2.Markers), keysOfB(in2.Imports)), rp(nil))
 	}
 	if _, err := os.Stat(filepath.Join(s.dir, s.cfg.PkgPath)); err == nil {
-		c.violate("C06", "tracking package directory still exists after clean", rp(nil))
+		userFiles := false // hand-written files of the project living in that directory keep it alive
+		for p := range s.newTree {
+			if strings.HasPrefix(p, s.cfg.PkgPath+"/") {
+				userFiles = true
+			}
+		}
+		if !userFiles {
+			c.violate("C06", "tracking package directory still exists after clean", rp(nil))
+		}
 	}
 	if lf, ld := proj.Leftovers(s.dir, s.newTree, s.cfg.PkgPath, "goat.yaml"); len(lf)+len(ld) > 0 {
 		c.violate("C06", fmt.Sprintf("after clean the tree holds files %v and directories %v that the project did not have before instrumentation", lf, ld), rp(nil))
